@@ -53,8 +53,8 @@ func (sms *sqlMetadataStore) PutObjectTagging(ctx context.Context, tx *sql.Tx, b
 		return err
 	}
 
-	// Bump the object's updated_at / optimistic lock version so the tag change
-	// is reflected in the object metadata and concurrent writers are detected.
+	// Bump the object's optimistic lock version so concurrent writers are
+	// detected. Last-Modified (updated_at) is not affected by a tag change.
 	return sms.objectRepository.SaveObject(ctx, tx, objectEntity)
 }
 
